@@ -1,2 +1,77 @@
-(* Properties_C05.v -- placeholder until the layout proofs land: states nothing yet. *)
-From HexVerif Require Import AsmSpec AsmLayout.
+(* Properties_C05.v -- label resolution and layout of the assembler are sound and terminate.
+   Model of hexasm's back end: AsmLayout.v (resolve = resolveLabels, codegen, emit_go = emitProgramBin).
+   The statement is the spec validator AsmSpec.check_image (the same extracted function judges the real assembler's
+   output on every run): directives found in source order without overlap, DATA aligned and named by the label
+   before it, every reference reaches its label, only zero padding up to a multiple of 4 = 4 * header word.
+   Proofs: AsmLayoutProofs.v. *)
+From Coq Require Import ZArith List String Bool.
+From HexVerif Require Import WMap Isa AsmModel AsmLayout AsmSpec AsmSpecProofs AsmStatements AsmLayoutProofs.
+Import ListNotations.
+Local Open Scope Z_scope.
+
+(* every accepted program's image passes the validator *)
+Theorem C05_layout_sound :
+  forall prog locs out, Forall wf_directive prog -> assemble_directives prog locs = Ok out -> small (ao_layout out) ->
+    check_image prog (ao_image out) (l_size (ao_layout out) / 4) = true.
+Proof. exact layout_sound. Qed.
+Print Assumptions C05_layout_sound.
+
+(* the layout loop never runs out of the fuel the model gives it: it stops at a fixed point or rejects with
+   "label resolution did not converge" after max_passes passes *)
+Theorem C05_terminates : forall prog, resolve prog <> OutOfFuel.
+Proof. exact resolve_terminates. Qed.
+Print Assumptions C05_terminates.
+
+(* what the validator's verdict means for the processor (Isa.step): started at a placed reference with a clear
+   operand register, in any memory holding the image there, it runs silently through the prefixes to the instruction
+   byte (the source's opcode) with an operand o such that -- relative: (address after the instruction + o) mod 2^32
+   is the position of the label; absolute: the label is word aligned and o is its word address *)
+Theorem C05_refs_execute :
+  forall prog locs out, Forall wf_directive prog -> assemble_directives prog locs = Ok out -> small (ao_layout out) ->
+    exists ps e, walk prog (bytes_map (ao_image out)) 0 = Some (ps, e) /\
+      forall p, In p ps ->
+        match p_dir p with
+        | DRef t name rel =>
+            exists lp c, label_pos name ps None = Some lp /\ token_opc t = Some c /\ 0 <= p_start p /\ 1 <= p_size p /\
+            forall s inp, pc s = p_start p -> oreg s = 0 ->
+              holds (mem s) (bytes_map (ao_image out)) (p_start p) (p_start p + p_size p) ->
+              exists s', Isa.run (Z.to_nat (p_size p - 1)) s inp [] = ([], inp, s', Cut) /\
+                pc s' = p_start p + p_size p - 1 /\ areg s' = areg s /\ breg s' = breg s /\ mem s' = mem s /\
+                fetch s' / 16 = c /\
+                let o := Z.lor (oreg s') (fetch s' mod 16) in
+                if rel then wrap (pc s' + 1 + o) = lp else lp mod 4 = 0 /\ o = lp / 4
+        | _ => True
+        end.
+Proof. exact refs_execute. Qed.
+Print Assumptions C05_refs_execute.
+
+(* the same for ANY image the validator accepts (this is what the direct oracle's verdict on the real assembler's
+   output means) *)
+Theorem C05_validator_meaning : forall prog image hw,
+  check_image prog image hw = true -> Z.of_nat (List.length image) <= W ->
+  exists ps e, walk prog (bytes_map image) 0 = Some (ps, e) /\ forall p, In p ps -> ref_executes (bytes_map image) ps p.
+Proof. exact image_refs_execute. Qed.
+Print Assumptions C05_validator_meaning.
+
+(* non-vacuity: a forward BR over 16 filler bytes (needs a prefix), a backward BR, an absolute reference to a
+   PROC label that names padded DATA *)
+Definition C05_example : list directive :=
+  [DRef TBR "over"%string true] ++ repeat (DImm TLDAC 0) 16 ++
+  [DLabel LId "over"%string; DRef TLDAM "word"%string false; DRef TBR "over"%string true; DOpr TSVC;
+   DLabel LProc "word"%string; DData (-2)].
+Example C05_example_accepted :
+  Forall wf_directive C05_example /\
+  exists out, assemble_directives C05_example [] = Ok out /\ small (ao_layout out) /\
+    ao_image out = [225; 144; 48; 48; 48; 48; 48; 48; 48; 48; 48; 48; 48; 48; 48; 48; 48; 48;
+                    6; 255; 157; 211; 0; 0; 254; 255; 255; 255] /\
+    check_image C05_example (ao_image out) (l_size (ao_layout out) / 4) = true.
+Proof.
+  split.
+  - unfold C05_example. repeat constructor; try discriminate.
+  - eexists. split; [vm_compute; reflexivity|]. split; [vm_compute; reflexivity|]. split; vm_compute; reflexivity.
+Qed.
+(* the validator is not trivially true: the same image with the forward branch one byte short is refused *)
+Example C05_validator_refuses :
+  check_image C05_example [225; 143; 48; 48; 48; 48; 48; 48; 48; 48; 48; 48; 48; 48; 48; 48; 48; 48;
+                           6; 255; 157; 211; 0; 0; 254; 255; 255; 255] 7 = false.
+Proof. vm_compute. reflexivity. Qed.
